@@ -1,9 +1,9 @@
 #!/bin/bash
-# Confirms a sub-agent's seeded change in its scratch worktree /tmp/seed8/<ID> (SEED_ROOT):
+# Confirms a sub-agent's seeded change in its scratch worktree ${SEED_ROOT:-/tmp/seed9}/<ID> (SEED_ROOT):
 # test-suite passes with the change, demo fails with it and passes without it.
 # usage: seedcheck.sh <ID> ; prints a summary, exit 0 if all three hold
 id=$1
-d=/tmp/seed8/$id
+d=${SEED_ROOT:-/tmp/seed9}/$id
 cd $d || exit 2
 [ -f patch.diff ] || { echo "no patch.diff"; exit 2; }
 git diff --quiet -- src && { echo "worktree has no source change applied; applying patch.diff"; git apply patch.diff || exit 2; }
@@ -12,15 +12,15 @@ ninja -C _b >/dev/null 2>&1 || { echo "BUILD FAILS with change"; exit 1; }
 t=$(meson test -C _b 2>&1 | grep -E "^(Ok|Fail):" | tr -s ' ' | tr '\n' ' ')
 echo "tests with change: $t"
 echo "$t" | grep -q "Fail: 0" || { echo "TESTS FAIL with change"; exit 1; }
-bash demo/run.sh >/tmp/seed8/$id.with.log 2>&1; w=$?
+bash demo/run.sh >${SEED_ROOT:-/tmp/seed9}/$id.with.log 2>&1; w=$?
 echo "demo with change: exit $w"
 # (no git stash: the stash is shared between all worktrees of one repository)
-git diff -- src > /tmp/seed8/$id.current.diff
-git apply -R /tmp/seed8/$id.current.diff || exit 2
+git diff -- src > ${SEED_ROOT:-/tmp/seed9}/$id.current.diff
+git apply -R ${SEED_ROOT:-/tmp/seed9}/$id.current.diff || exit 2
 ninja -C _b >/dev/null 2>&1
-bash demo/run.sh >/tmp/seed8/$id.without.log 2>&1; wo=$?
+bash demo/run.sh >${SEED_ROOT:-/tmp/seed9}/$id.without.log 2>&1; wo=$?
 echo "demo without change: exit $wo"
-git apply /tmp/seed8/$id.current.diff || exit 2
+git apply ${SEED_ROOT:-/tmp/seed9}/$id.current.diff || exit 2
 ninja -C _b >/dev/null 2>&1
 if [ $w -ne 0 ] && [ $wo -eq 0 ]; then echo "CONFIRMED"; exit 0; fi
 echo "NOT CONFIRMED"; exit 1
